@@ -19,6 +19,7 @@ PARTIAL = [
     "floating-point rounding (theorems over the reals; correspondence within 1e-9 relative)",
 ]
 ASSUMPTIONS = ["numpy pairwise summation vs sequential summation differ only at rounding level"]
+JIT_TWIN = ('utils', 'update')   # groups of harness/jittwin.py: the numba-compiled code is run on the same battery and compared
 TRUSTED = ["history recorder: subclass of scipy.integrate.LSODA substituted for pydrex.minerals.LSODA at run time"]
 
 
